@@ -28,6 +28,7 @@ PROP = dict(
           "are counted as trivial; a duplex case is non-trivial when both directions carry >=200 messages. Distinct = distinct (keys, plan / manipulation) "
           "fingerprints."),
     assumptions=[
+        'fourth session: messages handed out by ReadMessage / ReadNextMessage are kept and compared again after the last read of a batch (a consumer may hold a message while it reads later ones)',
         "ChaCha20-Poly1305 forgeries and SHA-256/HKDF collisions do not occur (a manipulated frame or act that still authenticates is treated as impossible)",
         "the AEAD primitive (x/crypto chacha20poly1305) and btcec point multiplication are trusted; the reference re-implements the BOLT-8 protocol around them (handshake transcript, nonce encoding, rotation, framing) with its own HKDF",
         "nothing is asserted about reads after the first failed read (lnd disconnects on a read error; Decrypt advances the nonce even on failure, so the streams are no longer synchronised)",
